@@ -186,8 +186,15 @@ macro_rules! native {
 }
 pub(crate) use native;
 
-pub fn reg(t: &mut Table, name: &str, v: Value) {
-    let k: LStr = Rc::from(name.as_bytes());
+thread_local! {
+    /// library key strings are immutable and can be shared by all states of a thread
+    static KEYS: std::cell::RefCell<std::collections::HashMap<(usize, usize), LStr, std::hash::BuildHasherDefault<crate::parser::Fnv>>> =
+        std::cell::RefCell::new(Default::default());
+}
+
+pub fn reg(t: &mut Table, name: &'static str, v: Value) {
+    let id = (name.as_ptr() as usize, name.len());
+    let k: LStr = KEYS.with(|m| m.borrow_mut().entry(id).or_insert_with(|| Rc::from(name.as_bytes())).clone());
     t.set_str(&k, v);
 }
 
@@ -197,11 +204,22 @@ pub fn reg(t: &mut Table, name: &str, v: Value) {
 fn b_print(l: &mut Lua, base: usize) -> R<usize> {
     let n = l.nargs(base);
     let mut line: Vec<u8> = Vec::new();
+    // 5.3's print calls the *global* `tostring` for every argument
+    let ts = l.globals.borrow().get_str(b"tostring");
+    let builtin = matches!(&ts, Value::Native(nf) if nf.name == "tostring");
     for i in 0..n {
         let v = l.arg(base, i).clone();
-        let s = match &v {
-            Value::Str(s) => s.clone(),
-            _ => l.tostring(&v)?,
+        let s = if builtin {
+            match &v {
+                Value::Str(s) => s.clone(),
+                _ => l.tostring(&v)?,
+            }
+        } else {
+            match l.call1(ts.clone(), &[v])? {
+                Value::Str(s) => s,
+                r @ (Value::Int(_) | Value::Float(_)) => Rc::from(tostring_plain(&r).into_bytes().into_boxed_slice()),
+                _ => return Err(l.native_error("'tostring' must return a string to 'print'")),
+            }
         };
         if i > 0 {
             line.push(b'\t');
@@ -305,6 +323,18 @@ fn ipairs_aux(l: &mut Lua, base: usize) -> R<usize> {
 fn b_ipairs(l: &mut Lua, base: usize) -> R<usize> {
     l.check_any(base, 0, "ipairs")?;
     let t = l.arg(base, 0).clone();
+    if l.compat_ipairs {
+        let h = l.metamethod(&t, b"__ipairs");
+        if !h.is_nil() {
+            l.stack.truncate(base);
+            l.stack.push(t);
+            l.call_name = None;
+            let n = l.call_value(h, base)?;
+            l.stack.resize(base + 3.max(n), Value::Nil);
+            l.stack.truncate(base + 3);
+            return Ok(3);
+        }
+    }
     l.retn(base, vec![native!("ipairs_aux", ipairs_aux), t, Value::Int(0)])
 }
 
@@ -684,6 +714,7 @@ fn plain_table(t: &TableRef) -> bool {
 }
 
 fn geti(l: &mut Lua, t: &TableRef, i: i64) -> R<Value> {
+    l.tick()?;
     let v = t.borrow().get_int(i);
     if v.is_nil() && !plain_table(t) {
         return l.index_value(Value::Table(t.clone()), &Value::Int(i));
@@ -715,6 +746,7 @@ fn t_insert(l: &mut Lua, base: usize) -> R<usize> {
                 return Err(l.arg_error(1, "insert", "position out of bounds"));
             }
             let v = l.arg(base, 2).clone();
+            l.tick_n(((e - pos) / 8) as u64)?;
             let fast = plain_table(&t) && !v.is_nil() && {
                 let tb = t.borrow();
                 e - 1 == tb.arr.len() as i64 && tb.hash_live() == 0
@@ -749,6 +781,9 @@ fn t_remove(l: &mut Lua, base: usize) -> R<usize> {
         }
     }
     let v = geti(l, &t, pos)?;
+    if pos >= 1 && pos <= size {
+        l.tick_n(((size - pos) / 8) as u64)?;
+    }
     let fast = plain_table(&t) && pos >= 1 && pos <= size && size == t.borrow().arr.len() as i64;
     if fast {
         let mut tb = t.borrow_mut();
@@ -829,6 +864,9 @@ fn t_concat(l: &mut Lua, base: usize) -> R<usize> {
                 out.extend_from_slice(s);
             }
         }
+        if out.len() > crate::lstrlib::MAX_STRING {
+            return Err(l.make_error(ErrorKind::Budget, Value::str(b"not enough memory")));
+        }
         if k == i64::MAX {
             break;
         }
@@ -838,6 +876,7 @@ fn t_concat(l: &mut Lua, base: usize) -> R<usize> {
 }
 
 fn sort_lt(l: &mut Lua, cmp: &Value, a: &Value, b: &Value) -> R<bool> {
+    l.tick()?;
     if cmp.is_nil() {
         l.less_than(a, b, 0)
     } else {
@@ -859,7 +898,7 @@ fn t_sort(l: &mut Lua, base: usize) -> R<usize> {
     if n < 2 {
         return l.ret0(base);
     }
-    let mut v: Vec<Value> = Vec::with_capacity(n as usize);
+    let mut v: Vec<Value> = Vec::with_capacity((n as usize).min(1 << 16));
     for i in 1..=n {
         v.push(geti(l, &t, i)?);
     }
@@ -1018,13 +1057,10 @@ fn m_modf(l: &mut Lua, base: usize) -> R<usize> {
 }
 
 fn m_tointeger(l: &mut Lua, base: usize) -> R<usize> {
-    let r = match l.arg(base, 0) {
-        Value::Int(i) => Value::Int(*i),
-        Value::Float(f) => match float_to_int(*f, 0) {
-            Some(i) => Value::Int(i),
-            None => Value::Nil,
-        },
-        _ => {
+    // 5.3: lua_tointegerx, which also converts numeric strings
+    let r = match tointeger(l.arg(base, 0)) {
+        Some(i) => Value::Int(i),
+        None => {
             l.check_any(base, 0, "tointeger")?;
             Value::Nil
         }
@@ -1130,6 +1166,74 @@ fn m_ult(l: &mut Lua, base: usize) -> R<usize> {
     let a = l.check_int(base, 0, "ult")?;
     let b = l.check_int(base, 1, "ult")?;
     l.ret1(base, Value::Bool((a as u64) < (b as u64)))
+}
+
+// --- deprecated functions present when Lua 5.3 is built with LUA_COMPAT_5_2
+// (LUA_COMPAT_MATHLIB), which is what the stock `make linux` and the
+// Debian/Ubuntu `lua5.3` packages do. Off by default here.
+
+math1!(m_cosh, "cosh", |x| x.cosh());
+math1!(m_sinh, "sinh", |x| x.sinh());
+math1!(m_tanh, "tanh", |x| x.tanh());
+math1!(m_log10, "log10", |x| x.log10());
+
+fn m_pow(l: &mut Lua, base: usize) -> R<usize> {
+    let x = l.check_num(base, 0, "pow")?;
+    let y = l.check_num(base, 1, "pow")?;
+    l.ret1(base, Value::Float(crate::ops::pow(x, y)))
+}
+
+fn m_ldexp(l: &mut Lua, base: usize) -> R<usize> {
+    let x = l.check_num(base, 0, "ldexp")?;
+    let e = l.check_int(base, 1, "ldexp")?.clamp(-5000, 5000);
+    let mut r = x;
+    let mut e = e;
+    while e > 0 {
+        let s = e.min(1000);
+        r *= 2f64.powi(s as i32);
+        e -= s;
+    }
+    while e < 0 {
+        let s = (-e).min(1000);
+        r *= 2f64.powi(-(s as i32));
+        e += s;
+    }
+    l.ret1(base, Value::Float(r))
+}
+
+fn m_frexp(l: &mut Lua, base: usize) -> R<usize> {
+    let x = l.check_num(base, 0, "frexp")?;
+    if x == 0.0 || !x.is_finite() {
+        return l.ret2(base, Value::Float(x), Value::Int(0));
+    }
+    let mut m = x;
+    let mut e: i64 = 0;
+    // normalise subnormals first
+    if m.abs() < f64::MIN_POSITIVE {
+        m *= 2f64.powi(64);
+        e -= 64;
+    }
+    let bits = m.to_bits();
+    let exp = ((bits >> 52) & 0x7ff) as i64;
+    e += exp - 1022;
+    let mb = (bits & !(0x7ffu64 << 52)) | (1022u64 << 52);
+    l.ret2(base, Value::Float(f64::from_bits(mb)), Value::Int(e))
+}
+
+pub fn open_compat_5_2(l: &mut Lua) {
+    let m = l.globals.borrow().get_str(b"math");
+    if let Value::Table(m) = m {
+        let mut m = m.borrow_mut();
+        reg(&mut m, "atan2", native!("math.atan2", m_atan));
+        reg(&mut m, "cosh", native!("math.cosh", m_cosh));
+        reg(&mut m, "sinh", native!("math.sinh", m_sinh));
+        reg(&mut m, "tanh", native!("math.tanh", m_tanh));
+        reg(&mut m, "pow", native!("math.pow", m_pow));
+        reg(&mut m, "frexp", native!("math.frexp", m_frexp));
+        reg(&mut m, "ldexp", native!("math.ldexp", m_ldexp));
+        reg(&mut m, "log10", native!("math.log10", m_log10));
+    }
+    l.compat_ipairs = true;
 }
 
 // ---------------------------------------------------------------------------
